@@ -112,6 +112,30 @@ def run(chk):
                     return False, f"{r} vs {bl}"
         return True, ""
 
+    def spec_blocks(nf0, nff, muf):
+        """the flavour-number path of the statement, written independently of Atlas: unit steps in nf, junctions on the wall of the heavier of the two
+        neighbouring flavour numbers, one matching per junction for that heavy quark, inverse iff the path lowers the number of flavours"""
+        sg = (nff > nf0) - (nff < nf0)
+        nfs = list(range(nf0, nff + sg, sg)) if sg else [nf0]
+        wall = {4: c, 5: b, 6: t}
+        out, cur = [], mu0
+        for lo, hi in zip(nfs, nfs[1:]):
+            w = wall[max(lo, hi)]
+            out += [("evolution", cur, w, lo), ("matching", w, max(lo, hi), sg < 0)]
+            cur = w
+        return out + [("evolution", cur, muf, nfs[-1])]
+
+    def on_spec_path(recs, spec):
+        if len(recs) != len(spec):
+            return False, f"{len(recs)} parts for a path of {len(spec)} steps"
+        for r, sp in zip(recs, spec):
+            if sp[0] == "evolution":
+                if not (isinstance(r, Evolution) and same(r.origin, sp[1]) and same(r.target, sp[2]) and r.nf == sp[3]):
+                    return False, f"{r} instead of the evolution {sp[1]} -> {sp[2]} with nf = {sp[3]}"
+            elif not (isinstance(r, Matching) and same(r.scale, sp[1]) and r.hq == sp[2] and bool(r.inverse) == sp[3]):
+                return False, f"{r} instead of the {'inverse ' if sp[3] else ''}matching of heavy quark {sp[2]} at {sp[1]}"
+        return True, ""
+
     for nf0 in (3, 4, 5, 6):
         for nff in (3, 4, 5, 6):
             muf = T.var("muf")
@@ -121,6 +145,8 @@ def run(chk):
                 blocks = atlas.matched_path((muf, nff))
                 ok, why = img_ok(recs, blocks, atlas, base + [muf > 0] + list(pc))
                 chk.ground(f"{pt}.image_of_matched_path", ok, fn="eko.runner.recipes:_elements", goal="recipes == image of matched_path (origin, target, nf resp. scale, hq, inverse copied)", detail=why, replay=rp)
+                ok2, why2 = on_spec_path(recs, spec_blocks(nf0, nff, muf))
+                chk.ground(f"{pt}.parts_along_the_flavour_number_path", ok2, fn="eko.runner.recipes:_elements", goal="the parts of a target are the evolutions and heavy-quark matchings along the flavour-number path from the initial point (unit steps, junctions on the walls, matching of the heavier flavour, inverse iff downward)", detail=why2, replay=rp)
             chk.configs += 1
     # _create: two targets, the patterns (same scale / different scale) x (same nf / different nf)
     mu1, mu2 = T.var("mu1"), T.var("mu2")
